@@ -475,3 +475,115 @@ def hex_pitch_follows_every_change_of_the_grid(p1: float, p2: float, p3: float, 
     g.restoreBackup()
     assert eq(g.pitch, p2), "and the restored pitch after a restored back-up"
     assert eq(HexGrid(*g.reduce()).pitch, g.pitch)
+
+
+# ----------------------------------------------------------------------------- widened hypotheses (assumption review)
+# The lemmas above fix conveniences the property does not condition on: monotone bounds and a zero offset on bounds
+# axes, a flats-up core grid at the origin, an assembly at axial index 0 and a block at radial indices (0, 0).  The
+# lemmas below state the same clauses without them.
+@lemma(gen={"i": (0, 2), "j": (0, 2), "k": (0, 2)})
+def bounds_axes_midpoints_any_bounds_and_offset(i: int, j: int, k: int, ox: float, oy: float, oz: float):
+    """like bounds_axes_midpoints for ANY bounds (not monotone: equal and decreasing neighbours too) and any offset"""
+    tb = sym_list("real", "tb", mono=False)
+    rb = sym_list("real", "rb", mono=False)
+    zb = sym_list("real", "zb", mono=False)
+    g = new(
+        StructuredGrid,
+        _unitSteps=np.array(()),
+        _bounds=(tb, rb, zb),
+        _stepDims=((),),
+        _boundDims=((0, 1, 2),),
+        _offset=np.array((ox, oy, oz)),
+    )
+    assume(0 <= i and i + 1 < len(tb) and 0 <= j and j + 1 < len(rb) and 0 <= k and k + 1 < len(zb))  # (P) a cell of the grid
+    c = g.getCoordinates((i, j, k))
+    b = g.getCellBase((i, j, k))
+    t = g.getCellTop((i, j, k))
+    assert eq(c[0], (tb[i] + tb[i + 1]) / 2.0 + ox)
+    assert eq(c[1], (rb[j] + rb[j + 1]) / 2.0 + oy)
+    assert eq(c[2], (zb[k] + zb[k + 1]) / 2.0 + oz)
+    assert eq(b[0], tb[i] + ox) and eq(b[1], rb[j] + oy) and eq(b[2], zb[k] + oz)
+    assert eq(t[0], tb[i + 1] + ox) and eq(t[1], rb[j + 1] + oy) and eq(t[2], zb[k + 1] + oz)
+
+
+@lemma(gen={"i": (-9, 9), "j": (-9, 9), "ka": (-3, 3), "bi": (-3, 3), "bj": (-3, 3), "pitch": (0.1, 30.0)})
+def nested_axial_in_hex_any_indices_offsets_orientation(
+    i: int, j: int, ka: int, bi: int, bj: int, k: int, pitch: float, cornersUp: bool,
+    rx: float, ry: float, rz: float, cx: float, cy: float, cz: float, ax: float, ay: float, az: float,
+):
+    """nested_axial_in_hex without its conveniences: either orientation, a core grid and an axial grid with offsets, an
+    assembly locator with a non-zero axial index and a block locator with non-zero radial indices: indices ADD on
+    every axis (axial-in-radial), coordinates / bases / tops add through the three levels"""
+    assume(pitch > 0)  # (P) a pitch is a length
+    zb = sym_list("real", "zb", mono=False)
+    assume(0 <= k and k + 1 < len(zb))  # (P) a cell of the axial grid
+    reactor = new(Composite, parent=None, spatialLocator=None)
+    core = new(Composite, parent=reactor)
+    core.spatialLocator = CoordinateLocation(rx, ry, rz, None)
+    cg = hexgrid(pitch, cornersUp, cx, cy, cz)
+    cg.armiObject = core
+    cg._isAxialOnly = False
+    assem = new(Composite, parent=core)
+    aloc = IndexLocation(i, j, ka, cg)
+    assem.spatialLocator = aloc
+    ag = _axial(zb, assem)
+    ag._offset = np.array((ax, ay, az))
+    bloc = IndexLocation(bi, bj, k, ag)
+    assert bloc.getCompleteIndices() == (i + bi, j + bj, ka + k)
+    assert aloc.getCompleteIndices() == (i, j, ka)
+    assert tuple(bloc.indices) == (bi, bj, k) and tuple(aloc.indices) == (i, j, ka), "composing does not change the locators"
+    c = bloc.getGlobalCoordinates()
+    ca = cg.getCoordinates((i, j, ka))
+    assert eq(c[0], ax + ca[0] + rx)
+    assert eq(c[1], ay + ca[1] + ry)
+    assert eq(c[2], (zb[k] + zb[k + 1]) / 2.0 + az + ca[2] + rz)
+    assert eq(ca[2], cz)
+    b = bloc.getGlobalCellBase()
+    t = bloc.getGlobalCellTop()
+    ba = cg.getCellBase((i, j, ka))
+    ta = cg.getCellTop((i, j, ka))
+    # a CoordinateLocation has no extent: its base and top are the point itself
+    assert eq(b[0], ax + ba[0] + rx) and eq(b[1], ay + ba[1] + ry) and eq(b[2], zb[k] + az + ba[2] + rz)
+    assert eq(t[0], ax + ta[0] + rx) and eq(t[1], ay + ta[1] + ry) and eq(t[2], zb[k + 1] + az + ta[2] + rz)
+
+
+def cartgrid_at(w, h, ox, oy, oz):
+    return new(
+        CartesianGrid,
+        _unitSteps=np.array(((w, 0.0, 0.0), (0.0, h, 0.0), (0, 0, 0))),
+        _bounds=(None, None, None),
+        _stepDims=((0, 1, 2),),
+        _boundDims=((),),
+        _offset=np.array((ox, oy, oz)),
+        _unitStepLimits=((-3, 3), (-3, 3), (0, 1)),
+    )
+
+
+@lemma(gen={"w": (0.05, 30.0), "h": (0.05, 30.0), "i": (-40, 40), "j": (-40, 40), "k": (0, 3)})
+def cart_coordinates_affine_any_offset(i: int, j: int, k: int, w: float, h: float, ox: float, oy: float, oz: float):
+    """cart_coordinates_affine for ANY offset (the lemma above knows the zero and the half-pitch offset only)"""
+    assume(w > 0 and h > 0)  # (P) pitches are lengths
+    g = cartgrid_at(w, h, ox, oy, oz)
+    c = g.getCoordinates((i, j, k))
+    assert eq(c[0], w * i + ox) and eq(c[1], h * j + oy) and eq(c[2], oz)
+    b = g.getCellBase((i, j, k))
+    t = g.getCellTop((i, j, k))
+    assert eq(b[0], c[0] - w / 2.0) and eq(t[0], c[0] + w / 2.0)
+    assert eq(b[1], c[1] - h / 2.0) and eq(t[1], c[1] + h / 2.0)
+    assert g._isThroughCenter() == (ox == 0 and oy == 0 and oz == 0)
+
+
+@lemma(gen={"w": (0.05, 30.0), "h": (0.05, 30.0), "w2": (0.05, 30.0), "h2": (0.05, 30.0), "i": (-40, 40), "j": (-40, 40)})
+def cart_change_pitch_rescales_only_any_planar_offset(i: int, j: int, w: float, h: float, w2: float, h2: float, ox: float, oy: float):
+    """cart_change_pitch_rescales_only for any offset in the plane (the offset is a position: it is rescaled with the cells)"""
+    assume(w > 0 and h > 0 and w2 > 0 and h2 > 0)  # (P) pitches are lengths
+    g = cartgrid_at(w, h, ox, oy, 0.0)
+    c1 = g.getCoordinates((i, j, 0))
+    g.changePitch(w2, h2)
+    c2 = g.getCoordinates((i, j, 0))
+    assert eq(c2[0] * w, c1[0] * w2)
+    assert eq(c2[1] * h, c1[1] * h2)
+    assert eq(c2[2], c1[2])
+    assert g.pitch == (w2, h2)
+    assert g._bounds == (None, None, None)
+    assert g._unitStepLimits == ((-3, 3), (-3, 3), (0, 1))
